@@ -42,6 +42,50 @@ def small_exhaustive(nprop, cap, rng):
     return charts, total
 
 
+REGION_MENU = ['A', 'B', 'C', 'D', 'E', 'F']   # see region_family
+DESCS = [b'e', b'f', b'e f']
+
+
+def region_family():
+    """<parallel> with three regions, one transition per region, and a state outside (before or after the
+    parallel).  Region options: A atomic/target-less, B atomic/self, C atomic/to the outside state,
+    D two children/first to second, E two children/first to the outside state, F single child/self.
+    Each transition listens to e, f or both.  The family is the cross product (2 * 18^3 charts): it holds
+    the situations in which the large engine's lazily filled compatible/conflicting caches and the fast
+    engine's conflict matrix decide differently depending on which pairs were compared before."""
+    N, T = G.node, G.trans
+    out = []
+    for out_first in (False, True):
+        for combo in itertools.product(range(18), repeat=3):
+            sid = [3]
+            regions = []
+            vid = 100
+            OUT = 1 if out_first else 2
+            P = 2 if out_first else 1
+            for k in combo:
+                opt, desc = REGION_MENU[k // 3], DESCS[k % 3]
+                vid += 1
+                r = sid[0]
+                if opt in 'ABC':
+                    tg = {'A': None, 'B': [r], 'C': [OUT]}[opt]
+                    regions.append(N('state', r, trans=[T(vid, desc, None, tg)]))
+                    sid[0] += 1
+                elif opt in 'DE':
+                    tg = [r + 2] if opt == 'D' else [OUT]
+                    regions.append(N('state', r, [N('state', r + 1, trans=[T(vid, desc, None, tg)]), N('state', r + 2)]))
+                    sid[0] += 3
+                else:
+                    regions.append(N('state', r, [N('state', r + 1, trans=[T(vid, desc, None, [r + 1])])]))
+                    sid[0] += 2
+            par = N('parallel', P, regions)
+            outs = N('state', OUT, trans=[T(99, b'back', None, [P])])
+            out.append(N('scxml', 0, [outs, par] if out_first else [par, outs], init=[P]))
+    return out
+
+
+REGION_WORDS = [[b'e', b'f'], [b'f', b'e'], [b'e', b'f', b'back', b'f'], [b'f', b'f', b'e'], [b'e', b'back', b'e', b'f']]
+
+
 WORDS2 = [[], [b'e'], [b'f'], [b'e', b'e'], [b'e', b'f'], [b'f', b'e'], [b'f', b'f']]
 
 
@@ -62,6 +106,16 @@ def build_cases(c, faults=0.0):
             cases.append({'tree': t, 'events': WORDS2[i % len(WORDS2)] if quick else WORDS2[(i * 3) % len(WORDS2)], 'dm': 'null', 'late': False,
                           'origin': 'exhaustive%d(%d of %d)' % (nprop, len(charts), total)})
             nex += 1
+    fam = region_family()
+    stride = 5 if quick else 1
+    off = c.seed % stride
+    nfam = 0
+    for i, t in enumerate(fam):
+        if i % stride != off:
+            continue
+        for w in ([REGION_WORDS[(i // stride) % 2]] if quick else REGION_WORDS):
+            cases.append({'tree': t, 'events': w, 'dm': 'null', 'late': False, 'origin': 'regions(%d of %d)' % (len(fam) // stride, len(fam))})
+            nfam += 1
     nrand = {'lua': 1200, 'promela': 400, 'null': 400} if quick else {'lua': 12000, 'promela': 4000, 'null': 4000}
     for dm, k in nrand.items():
         for _ in range(k):
